@@ -1,0 +1,25 @@
+//go:build verif
+
+package common
+
+// Lemma functions for govc (see /verif/DESIGN.md): compositions of functions under contract whose
+// postconditions state the round-trip properties. Built only with -tags verif, never called.
+
+// text round trip: the strict parser maps the printed form back to the same address
+func verifLemmaAddressTextRoundTrip(a *Address, b *Address) error {
+	s := a.String()
+	return b.SetStringStrict(s)
+}
+
+// canonical only: whatever the strict parser accepts is exactly what the parsed address prints
+func verifLemmaAddressStrictOnlyCanonical(a *Address, s string) (string, error) {
+	if err := a.SetStringStrict(s); err != nil {
+		return "", err
+	}
+	return a.String(), nil
+}
+
+// byte round trip
+func verifLemmaAddressBytesRoundTrip(a *Address, b *Address) error {
+	return b.SetBytes(a.Bytes())
+}
